@@ -563,3 +563,30 @@ Example ex_f64_history_run :
   | None => False
   end.
 Proof. vm_compute. reflexivity. Qed.
+
+(** the hypotheses of [sat_ref_f64] hold for the example diagram; the theorem
+    instantiated: 5 * 2^1097 models over 1100 variables are +inf, 5 * 2^1020
+    over 1023 variables are exact *)
+Example ex_sat_f64_hyps :
+  WF ex_sat_bdd /\ counting_kind (s_kind ex_sat_bdd) /\ nlevels ex_sat_bdd <= 53 /\
+  ref_ok ex_sat_bdd (eref (xe (RN 4))) /\
+  exact_count ex_sat_bdd 1023 (xe (RN 4)) = (5 * 2 ^ 1020)%N /\
+  sat_ref f64_ops ex_sat_bdd 1023 (xe (RN 4)) = Some (f64_of_N (5 * 2 ^ 1020)) /\
+  sat_ref f64_ops ex_sat_bdd 1100 (xe (RN 4)) = Some f64c_pos_inf.
+Proof.
+  assert (W : WF ex_sat_bdd) by (apply wf_b_spec; exact ex_sat_bdd_wf).
+  assert (K : counting_kind (s_kind ex_sat_bdd)) by (left; reflexivity).
+  assert (L : nlevels ex_sat_bdd <= 53) by (change (nlevels ex_sat_bdd) with 3; lia).
+  assert (R : ref_ok ex_sat_bdd (eref (xe (RN 4)))) by (simpl; eexists; reflexivity).
+  assert (C : count_levels 3 (fun_bdd ex_sat_bdd (RN 4)) = 5%N) by (vm_compute; reflexivity).
+  assert (E : forall vars, exact_count ex_sat_bdd vars (xe (RN 4)) = (2 ^ N.of_nat (vars - 3) * 5)%N).
+  { intros vars. unfold exact_count. change (nlevels ex_sat_bdd) with 3. simpl s_kind. cbv iota.
+    change (eref (xe (RN 4))) with (RN 4). rewrite C. reflexivity. }
+  split; [exact W|]. split; [exact K|]. split; [exact L|]. split; [exact R|]. split; [|split].
+  - rewrite E. change (N.of_nat (1023 - 3)) with 1020%N. lia.
+  - rewrite (sat_ref_f64 _ 1023 _ W K ltac:(change (nlevels ex_sat_bdd) with 3; lia) L R), E.
+    change (N.of_nat (1023 - 3)) with 1020%N. repeat f_equal; try lia.
+  - apply (sat_ref_f64_overflow _ 1100 _ W K ltac:(change (nlevels ex_sat_bdd) with 3; lia) L R).
+    rewrite E. change (N.of_nat (1100 - 3)) with 1097%N.
+    assert (2 ^ 1024 <= 2 ^ 1097)%N by (apply N.pow_le_mono_r; lia). lia.
+Qed.
